@@ -501,6 +501,7 @@ func taskMain(w *World, t *Task, f func()) {
 		return
 	}
 	defer taskEnd(w, t)
+	startGap(w, t)
 	f()
 }
 
@@ -912,6 +913,16 @@ func Block(obj Waitable, arg int, reason string, deadline int64) bool {
 	t.wobj, t.wdeadline = nil, -1
 	w.afterResume(t)
 	return ok
+}
+
+// startGap: a new task draws its first preemption gap like a resumed one (otherwise a goroutine could
+// never be preempted before its first blocking call).
+//
+//go:norace
+func startGap(w *World, t *Task) {
+	if t.ID != 0 {
+		w.afterResume(t)
+	}
 }
 
 //go:norace
